@@ -28,6 +28,7 @@ package tabula
 // detected is the format recognised from the file's content.
 //@ func (*Extractor) validateFormat results (err)
 //@   property C20
+//@   flags pure
 //@   ensures refused_on_mismatch: detected != format.Unknown && detected != e.format ==> err
 
 // ---- C10: deriving a configured extractor never changes (or shares mutable state with) the one it came from ----
@@ -97,3 +98,21 @@ package tabula
 //@   ensures ocr_released: isnil(e.ocrClient)
 //@   ensures nothing_left_to_close: (!e.ownsReader || noReader(e))
 //@   ensures second_close_harmless: (!old(e.ownsReader) || noReader(old(e))) && isnil(old(e.ocrClient)) ==> !err && e == old(e)
+
+// A reader is only opened after the content check succeeded on this very extractor state, with the opener that
+// belongs to the declared format and for the declared file; the ownership flags are set exactly when a reader was
+// opened here.  (validateFormat is treated as a deterministic function of the extractor: the file is assumed not to
+// change between the check and the open.)
+//@ func (*Extractor) ensureReader results (err)
+//@   property C20, C10
+//@   callsite docx.Open(fn) requires !e.validateFormat() && e.format == format.DOCX && fn == e.filename
+//@   callsite odt.Open(fn) requires !e.validateFormat() && e.format == format.ODT && fn == e.filename
+//@   callsite xlsx.Open(fn) requires !e.validateFormat() && e.format == format.XLSX && fn == e.filename
+//@   callsite pptx.Open(fn) requires !e.validateFormat() && e.format == format.PPTX && fn == e.filename
+//@   callsite htmldoc.Open(fn) requires !e.validateFormat() && e.format == format.HTML && fn == e.filename
+//@   callsite epubdoc.Open(fn) requires !e.validateFormat() && e.format == format.EPUB && fn == e.filename
+//@   callsite reader.Open(fn) requires !e.validateFormat() && e.format == format.PDF && fn == e.filename
+//@   ensures already_open_untouched: old(e.readerOpened) ==> !err && e == old(e)
+//@   ensures refused_content_opens_nothing: !old(e.readerOpened) && old(e.validateFormat()) ==> err && e == old(e)
+//@   ensures opened_is_owned: !err && !old(e.readerOpened) ==> e.readerOpened && e.ownsReader
+//@   ensures failure_opens_nothing: err ==> e == old(e)
